@@ -149,6 +149,11 @@ def formName : Bytes := [102, 111, 114, 109]
 def actionName : Bytes := [97, 99, 116, 105, 111, 110]
 def styleName : Bytes := [115, 116, 121, 108, 101]
 
+/-- strings.EqualFold on ASCII names -/
+def eqFold (a b : Bytes) : Bool :=
+  let lower := fun (c : UInt8) => if 65 ≤ c && c ≤ 90 then c + 32 else c
+  a.map lower == b.map lower
+
 def isBlank (e : Bytes) : Bool := e.all fun b => b == 32 || b == 9 || b == 10 || b == 13 || b == 11 || b == 12
 
 end TemplVerif.Sem
